@@ -10,6 +10,8 @@ import (
 
 	"github.com/protobom/protobom/pkg/sbom"
 
+	"google.golang.org/protobuf/proto"
+
 	"mcverif/engine"
 	"mcverif/gen"
 )
@@ -257,6 +259,7 @@ func Run(c *engine.Ctx) {
 		}
 		idNames = saved
 	}
+	everyAlgorithm(c)
 	lookups(c, idNames)
 	afterMutation(c)
 	wide(c)
@@ -359,6 +362,86 @@ func afterMutation(c *engine.Ctx) {
 }
 
 // wide: 40 nodes (size class); one, two or forty of them match the probe.
+// everyAlgorithm: the matching rule under every hash algorithm of the enum (and two undeclared numbers): matches that
+// can only be found through that one algorithm, alone and next to SHA-1.
+func everyAlgorithm(c *engine.Ctx) {
+	c.Group("match-every-algorithm")
+	var algs []int
+	for a := range sbom.HashAlgorithm_name {
+		algs = append(algs, int(a))
+	}
+	algs = append(algs, 99, -1)
+	sort.Ints(algs)
+	c.Bound("match-every-algorithm", fmt.Sprintf("%d hash algorithm numbers (all declared + undeclared) x 6 list / probe shapes in which a match is reachable through that algorithm only, alone or next to SHA-1, with and without a package URL on another node", len(algs)))
+	sha1 := int32(sbom.HashAlgorithm_SHA1)
+	purl := map[int32]string{int32(sbom.SoftwareIdentifierType_PURL): p1}
+	for _, ai := range algs {
+		a := int32(ai)
+		if a == sha1 {
+			continue
+		}
+		shapes := []struct {
+			Name  string
+			List  []*sbom.Node
+			Probe *sbom.Node
+		}{
+			{"only node with that digest", []*sbom.Node{{Id: "n0", Hashes: map[int32]string{a: h1}}, {Id: "n1", Hashes: map[int32]string{a: h2}}}, &sbom.Node{Id: "p", Hashes: map[int32]string{a: h1}}},
+			{"digest match beats purl of another node", []*sbom.Node{{Id: "n0", Hashes: map[int32]string{a: h1}}, {Id: "n1", Identifiers: purl}}, &sbom.Node{Id: "p", Hashes: map[int32]string{a: h1}, Identifiers: purl}},
+			{"one node by SHA-1, one by that algorithm", []*sbom.Node{{Id: "n0", Hashes: map[int32]string{sha1: h1}}, {Id: "n1", Hashes: map[int32]string{a: h1}}}, &sbom.Node{Id: "p", Hashes: map[int32]string{sha1: h1, a: h1}}},
+			{"SHA-1 agrees, that algorithm disagrees", []*sbom.Node{{Id: "n0", Hashes: map[int32]string{sha1: h1, a: h2}}}, &sbom.Node{Id: "p", Hashes: map[int32]string{sha1: h1, a: h1}}},
+			{"two nodes with that digest, purl breaks the tie", []*sbom.Node{{Id: "n0", Hashes: map[int32]string{a: h1}}, {Id: "n1", Hashes: map[int32]string{a: h1}, Identifiers: purl}}, &sbom.Node{Id: "p", Hashes: map[int32]string{a: h1}, Identifiers: purl}},
+			{"no digest in common", []*sbom.Node{{Id: "n0", Hashes: map[int32]string{a: h1}}}, &sbom.Node{Id: "p", Hashes: map[int32]string{sha1: h1}}},
+		}
+		for si := range shapes {
+			ai, si := ai, si
+			sh := shapes[si]
+			c.Case(func() any { return map[string]any{"algorithm": ai, "shape": sh.Name} }, func(t *engine.T) *engine.Violation {
+				var base string
+				var viol *engine.Violation
+				gen.Permutations(len(sh.List), func(p []int) {
+					if viol != nil {
+						return
+					}
+					nl := &sbom.NodeList{}
+					for _, i := range p {
+						nl.Nodes = append(nl.Nodes, proto.Clone(sh.List[i]).(*sbom.Node))
+					}
+					probe := proto.Clone(sh.Probe).(*sbom.Node)
+					got, err := nl.GetMatchingNode(probe)
+					want := refMatch(nl.Nodes, probe)
+					t.Transitions(1)
+					t.Validated(1)
+					obs, w := "nil", "nil"
+					if err != nil {
+						obs = "ambiguous"
+					} else if got != nil {
+						obs = got.Id
+					}
+					if want.err {
+						w = "ambiguous"
+					} else if want.id != "" {
+						w = want.id
+					}
+					if obs != w {
+						viol = engine.Violate("match-rule", "algorithm", "algorithm %d, %s, list order %v: GetMatchingNode gives %s, documented rule gives %s", ai, sh.Name, p, obs, w)
+						return
+					}
+					if base == "" {
+						base = obs
+					}
+				})
+				if viol != nil {
+					return viol
+				}
+				t.Observe(base)
+				t.State(fmt.Sprint("alg", ai, si))
+				t.Outcome("algorithm-ok")
+				return nil
+			})
+		}
+	}
+}
+
 func wide(c *engine.Ctx) {
 	c.Group("wide-list")
 	sizes := []int{40, 301, 1027, 2051}
